@@ -114,6 +114,13 @@ structure St where
 
 def init : St := {}
 
+def St.mailJobs (s : St) : List Serial := s.mail.map (·.job)
+def St.runJobs (s : St) : List Serial := s.running.map (·.2)
+
+/-- in how many places job `j` is: channel heaps + mailboxes in flight + workers' running sets. -/
+def St.loc (s : St) (j : Serial) : Nat :=
+  s.queued.count j + s.mailJobs.count j + s.runJobs.count j
+
 /-! ### dictionaries (Python `dict`, insertion ordered) -/
 
 def dictGet {α β} [DecidableEq α] (d : List (α × β)) (k : α) : Option β :=
@@ -169,22 +176,24 @@ def St.minKey (s : St) : List Serial → Option Serial
     | none => some j
     | some m => if s.keyLt m j then some m else some j
 
-def popTape (s : St) : Nat × St :=
-  match s.tape with
-  | [] => (0, s)
-  | c :: t => (c, { s with tape := t })
+/-- next value of the choice tape (0 when exhausted). -/
+def St.choice (s : St) : Nat := s.tape.headD 0
+
+/-- the blocked puller `pushjob` hands the job to (`random.choice(alternatives)`), if any. -/
+def pushTarget (s : St) (j : Serial) : Option (Wid × List Chan) :=
+  match s.waiters.filter (fun wc => eligible wc.2 (s.chan j)) with
+  | [] => none
+  | a :: as => some ((a :: as).getD (s.choice % (a :: as).length) a)
 
 /-- `workq.pushjob` for a job that already has its serial (as repaired: the chosen waiter is
 unregistered at hand-off). -/
 def pushJob (s : St) (j : Serial) : St :=
-  let s := { s with id2job := dictSet s.id2job (s.jid j) j }
-  let alts := s.waiters.filter (fun wc => eligible wc.2 (s.chan j))
-  match alts with
-  | [] => { s with queued := s.queued ++ [j] }
-  | a :: as =>
-    let (c, s) := popTape s
-    let wc := (a :: as).getD (c % (a :: as).length) a
+  match pushTarget s j with
+  | none => { s with id2job := dictSet s.id2job (s.jid j) j, queued := s.queued ++ [j] }
+  | some wc =>
     { s with
+      id2job := dictSet s.id2job (s.jid j) j
+      tape := s.tape.tail
       waiters := s.waiters.filter (·.1 ≠ wc.1)
       mail := s.mail ++ [⟨wc.1, wc.2, j⟩]
       hubq := s.hubq ++ [.notifyMail wc.1] }
@@ -262,39 +271,46 @@ def advanceWait (s : St) (jw : JWait) : St × List Out :=
   | [] => ({ s with jwait := others }, [.waited jw.w jw.all])
   | _ => ({ s with jwait := others ++ [{ jw with rem := rem }] }, [])
 
+/-- the hub switches into puller `w` whose `AsyncResult` was set. -/
+def deliverMail (s : St) (w : Wid) : St × List Out :=
+  match s.mail.find? (·.w = w) with
+  | none => (s, [])                               -- the link was removed by a kill
+  | some m =>
+    let s := { s with mail := s.mail.erase m }
+    if s.done m.job then pullCore s w m.chans    -- finished in flight: pop() goes round again
+    else
+      ({ s with
+          running := runInsert s w m.job
+          handed := s.handed ++ [⟨m.job, w, m.chans, s.chan m.job, s.done m.job, true⟩] },
+       [.pulled w m.job])
+
+/-- `Event.set` of job `j` reaches the hub: every greenlet linked to it continues. -/
+def wakeEvent (s : St) (j : Serial) : St × List Out :=
+  (s.jwait.filter (fun jw => jw.rem.head? = some j)).foldl (fun (acc : St × List Out) jw =>
+    let (s', o) := advanceWait acc.1 jw
+    (s', acc.2 ++ o)) (s, [])
+
+/-- killed while blocked in `pop()`: a job already in the mailbox is re-queued (the repaired
+`except` branch). -/
+def killMail (s : St) (w : Wid) : St :=
+  match s.mail.find? (·.w = w) with
+  | none => s
+  | some m =>
+    let s := { s with mail := s.mail.erase m }
+    if s.done m.job then s else pushJob s m.job
+
+/-- the connection greenlet of `w` receives `GreenletExit`. -/
+def killConn (s : St) (w : Wid) : St :=
+  let s := killMail { s with dying := s.dying.filter (· ≠ w), dead := s.dead ++ [w] } w
+  shutdownConn { s with waiters := s.waiters.filter (·.1 ≠ w), jwait := s.jwait.filter (·.w ≠ w) } w
+
 /-- run one hub callback. -/
 def runOne (s : St) : St × List Out :=
   match s.hubq with
   | [] => (s, [])
-  | .notifyMail w :: rest =>
-    let s := { s with hubq := rest }
-    match s.mail.find? (·.w = w) with
-    | none => (s, [])                               -- the link was removed by a kill
-    | some m =>
-      let s := { s with mail := s.mail.erase m }
-      if s.done m.job then pullCore s w m.chans    -- finished in flight: pop() goes round again
-      else
-        ({ s with
-            running := runInsert s w m.job
-            handed := s.handed ++ [⟨m.job, w, m.chans, s.chan m.job, s.done m.job, true⟩] },
-         [.pulled w m.job])
-  | .notifyEvent j :: rest =>
-    let s := { s with hubq := rest }
-    let woken := s.jwait.filter (fun jw => jw.rem.head? = some j)
-    woken.foldl (fun (acc : St × List Out) jw =>
-      let (s', o) := advanceWait acc.1 jw
-      (s', acc.2 ++ o)) (s, [])
-  | .kill w :: rest =>
-    let s := { s with hubq := rest, dying := s.dying.filter (· ≠ w), dead := s.dead ++ [w] }
-    -- blocked in pop(): a job already in the mailbox is re-queued (repaired `except`)
-    let s :=
-      match s.mail.find? (·.w = w) with
-      | none => s
-      | some m =>
-        let s := { s with mail := s.mail.erase m }
-        if s.done m.job then s else pushJob s m.job
-    let s := { s with waiters := s.waiters.filter (·.1 ≠ w), jwait := s.jwait.filter (·.w ≠ w) }
-    (shutdownConn s w, [])
+  | .notifyMail w :: rest => deliverMail { s with hubq := rest } w
+  | .notifyEvent j :: rest => wakeEvent { s with hubq := rest } j
+  | .kill w :: rest => (killConn { s with hubq := rest } w, [])
 
 /-- let the event loop run until no callback is pending (fuel = a bound that is never
 reached by the harness; `runOne` is the real step). -/
@@ -351,17 +367,19 @@ def deadlineSet (d : Option Nat) : Bool :=
   | some n => n != 0
   | none => false
 
+/-- one iteration of `dropdead` for the entry `e` of the `id2job` snapshot. -/
+def dropStep (s : St) (e : JobId × Serial) : St :=
+  match s.jobs[e.2]? with
+  | none => s
+  | some x =>
+    if deadlineSet x.deadline && x.deadline.getD 0 < s.now then
+      { s with id2job := dictDel s.id2job e.1 }
+    else if x.done && !deadlineSet x.deadline then
+      s.modJob e.2 (fun x => { x with deadline := some (s.now + x.ttl) })
+    else s
+
 /-- `dropdead` (the watchdog). -/
-def dropDead (s : St) : St :=
-  s.id2job.foldl (fun s e =>
-    match s.jobs[e.2]? with
-    | none => s
-    | some x =>
-      if deadlineSet x.deadline && x.deadline.getD 0 < s.now then
-        { s with id2job := dictDel s.id2job e.1 }
-      else if x.done && !deadlineSet x.deadline then
-        s.modJob e.2 (fun x => { x with deadline := some (s.now + x.ttl) })
-      else s) s
+def dropDead (s : St) : St := s.id2job.foldl dropStep s
 
 /-- stop the server and start it again from its pickled state:
 `__getstate__` = (count, jobs reachable from id2job); `__setstate__` rebuilds the heaps and
